@@ -534,7 +534,10 @@ def razor_all():
 def razor(rnd, t=None, side=None):
     """(text, bg) with ratio within 3e-7 of t, on the given side ('above'/'below'), text/background roles random"""
     cat = razor_all()
-    keys = [k for k in sorted(cat) if (t is None or k.startswith(f"{float(t)}_")) and (side is None or f"_{side}_" in k)]
+    # (40 %: the ultra-razor part of the catalogue, within 1e-9 of the threshold)
+    ultra = rnd.random() < 0.4
+    keys = [k for k in sorted(cat) if k.startswith("ultra_") == ultra and (t is None or k.replace("ultra_", "").startswith(f"{float(t)}_"))
+            and (side is None or f"_{side}_" in k)]
     a, b = rnd.choice(cat[rnd.choice(keys)])
     a, b = tuple(a), tuple(b)
     return (a, b) if rnd.getrandbits(1) else (b, a)
